@@ -340,9 +340,9 @@ Print Assumptions C03_second_iteration_namespaces_partial.
 (* The first iteration on the WIDE fragment of the WBXML encoder (C06's string-table axis: C03b_roundtrip_wide_partial).
    PARTIAL in: the hypotheses of the encoder's wide theorem (tree_ok3: tags and attribute starts are the language's rows or names
    unknown to it, octets 1..255, depth <= 1000, no CDATA / PI; plain_env: not SyncML / Wireless-Village / DRM / OTA; no extension
-   table), output below 4 GiB, no element named "Data".  The language of the second conversion is forced or found by the NUMERIC
-   public identifier (lang_choice; Proofs/ConvWideUnforced.v replays the encoder's theorem with the abstract document in view:
-   C03_encoder_writes_numeric_public_id).  A language whose public id is written as a STRING is covered only when forced.  Attributes (token starts with or without value
+   table), output below 4 GiB, no element named "Data".  The language of the second conversion is forced, or found by the numeric
+   or the textual public identifier the encoder wrote (lang_choiceW; Proofs/ConvWideUnforced.v replays the encoder's theorem with
+   the abstract document in view: C03_encoder_public_id_field).  Attributes (token starts with or without value
    prefix, literal names), literal tags, string table on or off, textual or numeric public id: the second conversion succeeds, its
    output is the generator's text for root' = the normalised source tree with tags by tag_event and attributes by attr_event
    (name and FULL value; dropped when the language has no attribute table, as the encoder drops them), and reading it back gives
@@ -360,7 +360,7 @@ Theorem C03_conversion_roundtrip_wide_partial :
   EncWbxmlAbs.plain_env e = true -> EncWbxmlDenote2.vals_ok L = true -> l_exts L = None ->
   EncWbxmlTblOk.tree_ok3 L 0 (EncWbxml.NElt tag attrs ch) = true ->
   find (fun x => l_id x =? l_id L) TBL = Some L ->
-  lang_choice TBL L (EncWbxml.header_public_id e) (wo_lang o') -> wo_charset o' = 0 ->
+  lang_choiceW TBL L e (wo_lang o') -> wo_charset o' = 0 ->
   EncWbxml.o_version o < 4 -> EncWbxml.header_public_id e < 4294967296 -> EncWbxml.header_public_id e <> 0 ->
   (match EncWbxmlAbs.header_pid e with Some p => EncWbxmlDenote2.okb p = true | None => True end) ->
   no_data (EncWbxmlDenote3.doc_events3 L e (EncWbxml.o_keep_ws o) (EncWbxml.NElt tag attrs ch)) = true ->
@@ -389,9 +389,11 @@ Proof. exact conversion_roundtrip_wide_choice. Qed.
 Print Assumptions C03_conversion_roundtrip_wide_partial.
 
 (* the public-identifier field of the document the encoder writes on the wide fragment (the existential document of
-   C06's wide theorem, kept in view): whenever the id is written as a number, wd_pub d is that number — what an unforced parse
-   selects the language by *)
-Theorem C03_encoder_writes_numeric_public_id : forall tblb TBL L o tag attrs ch bs,
+   C06's wide theorem, kept in view): whenever the id is written as a number, wd_pub d is that number; whenever it is written as
+   a string p (language without numeric id, not anonymous), wd_pub d is an index of the written string table at which p stands
+   (in the table proper with the string table on; as the table's only string without) — what an unforced parse selects the
+   language by (lang_choiceW: forced / numeric id / textual id compared without regard to case) *)
+Theorem C03_encoder_public_id_field : forall tblb TBL L o tag attrs ch bs,
   let e := EncWbxml.enc_env (EncWbxmlDenote2.to_blang L) o in
   EncWbxmlAbs.plain_env e = true -> EncWbxmlDenote2.vals_ok L = true -> l_exts L = None ->
   EncWbxmlTblOk.tree_ok3 L 0 (EncWbxml.NElt tag attrs ch) = true ->
@@ -402,9 +404,12 @@ Theorem C03_encoder_writes_numeric_public_id : forall tblb TBL L o tag attrs ch 
   exists d evs, bs = Spec.serialize d /\ Spec.denote_with TBL (Some L) d = Some evs /\
             EncWbxmlEvents.merge_chars evs
             = EncWbxmlEvents.merge_chars (EncWbxmlDenote3.doc_events3 L e (EncWbxml.o_keep_ws o) (EncWbxml.NElt tag attrs ch)) /\
-            (EncWbxmlAbs.header_pid e = None -> Spec.wd_pub d = Spec.PubNum (EncWbxml.header_public_id e)).
+            (EncWbxmlAbs.header_pid e = None -> Spec.wd_pub d = Spec.PubNum (EncWbxml.header_public_id e)) /\
+            (forall p, EncWbxmlAbs.header_pid e = Some p ->
+               exists i, Spec.wd_pub d = Spec.PubIdx i /\ Spec.str_at (Spec.wd_strtbl d) i = Some p /\
+                         blen (Spec.wd_strtbl d) < 4294967296).
 Proof. exact strict_decode_of_encoding3_pub. Qed.
-Print Assumptions C03_encoder_writes_numeric_public_id.
+Print Assumptions C03_encoder_public_id_field.
 
 (* THE SECOND ITERATION ON THE WIDE FRAGMENT: attributes, literal tags, namespaces per code page together.
    x = the XML of the first round trip = the generator's text (compact or canonical) for root' = tnodeW R2.  PARTIAL in:
@@ -439,7 +444,7 @@ Theorem C03_second_iteration_identical_wide_partial :
   EncWbxmlAbs.plain_env e = true -> EncWbxmlDenote2.vals_ok L = true -> l_exts L = None ->
   EncWbxmlTblOk.tree_ok3 L 0 R2 = true ->
   find (fun y => l_id y =? l_id L) TBL = Some L ->
-  lang_choice TBL L (EncWbxml.header_public_id e) (wo_lang o') -> wo_charset o' = 0 ->
+  lang_choiceW TBL L e (wo_lang o') -> wo_charset o' = 0 ->
   EncWbxml.o_version o < 4 -> EncWbxml.header_public_id e < 4294967296 -> EncWbxml.header_public_id e <> 0 ->
   (match EncWbxmlAbs.header_pid e with Some p => EncWbxmlDenote2.okb p = true | None => True end) ->
   no_data (EncWbxmlDenote3.doc_events3 L e (EncWbxml.o_keep_ws o) R2) = true ->
@@ -511,7 +516,7 @@ Theorem C03_roundtrip_and_idempotence_wide_partial :
   EncWbxmlAbs.plain_env e = true -> EncWbxmlDenote2.vals_ok L = true -> l_exts L = None ->
   EncWbxmlTblOk.tree_ok3 L 0 root = true ->
   find (fun y => l_id y =? l_id L) TBL = Some L ->
-  lang_choice TBL L (EncWbxml.header_public_id e) (wo_lang o') -> wo_charset o' = 0 ->
+  lang_choiceW TBL L e (wo_lang o') -> wo_charset o' = 0 ->
   EncWbxml.o_version o < 4 -> EncWbxml.header_public_id e < 4294967296 -> EncWbxml.header_public_id e <> 0 ->
   (match EncWbxmlAbs.header_pid e with Some p => EncWbxmlDenote2.okb p = true | None => True end) ->
   no_data (EncWbxmlDenote3.doc_events3 L e (EncWbxml.o_keep_ws o) root) = true ->
@@ -557,7 +562,7 @@ Theorem C03_roundtrip_and_idempotence_indent_wide_partial :
   EncWbxmlAbs.plain_env e = true -> EncWbxmlDenote2.vals_ok L = true -> l_exts L = None ->
   EncWbxmlTblOk.tree_ok3 L 0 root = true ->
   find (fun y => l_id y =? l_id L) TBL = Some L ->
-  lang_choice TBL L (EncWbxml.header_public_id e) (wo_lang o') -> wo_charset o' = 0 ->
+  lang_choiceW TBL L e (wo_lang o') -> wo_charset o' = 0 ->
   EncWbxml.o_version o < 4 -> EncWbxml.header_public_id e < 4294967296 -> EncWbxml.header_public_id e <> 0 ->
   (match EncWbxmlAbs.header_pid e with Some p => EncWbxmlDenote2.okb p = true | None => True end) ->
   no_data (EncWbxmlDenote3.doc_events3 L e (EncWbxml.o_keep_ws o) root) = true ->
@@ -934,3 +939,13 @@ Example C03_ex_wide_indent_two_trips :
   | None => False
   end.
 Proof. split; [reflexivity|]. vm_compute. repeat split; (reflexivity || discriminate). Qed.
+
+(* the language NOT forced and found by the TEXTUAL public identifier: the ActiveSync document above (public id written as a string
+   into the string table) *)
+Definition exa_ou' := mk_w2x 0 0 0 0 false.
+Example C03_ex_wide_textual_public_id :
+  lang_choiceW main_table exa_L exa_e (wo_lang exa_ou')
+  /\ wbxml2xml_model main_table exa_ou' exa_w = mk_res ST_OK (Some (exa_x ++ [0])) (N.of_nat (length exa_x)).
+Proof.
+  split; [|vm_compute; reflexivity]. right. split; [reflexivity|]. eexists. split; vm_compute; reflexivity.
+Qed.
